@@ -221,6 +221,7 @@ func execC20(c *sim.Ctx, cfg c20cfg) (consumerSteps int) {
 		defer func() { tcpreader.VerifYield = nil }()
 		started := 0 // batches whose Reassembled call has begun
 		completed := false
+		endSeen := false // (real assembler) a delivered batch carried the end of the stream
 		asmStep := 0
 		// the assembler side as a list of steps
 		var asmSteps []func()
@@ -243,6 +244,11 @@ func execC20(c *sim.Ctx, cfg c20cfg) (consumerSteps int) {
 			// the real tcpassembly.Assembler, fed by the C10 network, delivers into the reader
 			tee := &teeStream{r: &r}
 			tee.onBatch = func(rs []tcpassembly.Reassembly) {
+				if len(rs) > 0 && rs[len(rs)-1].End {
+					// (an End mark on an earlier element - a reset in the middle of
+					// buffered data - does not end the stream for this assembler)
+					endSeen = true
+				}
 				for _, ra := range rs {
 					elems = append(elems, &elem{skip: ra.Skip, data: append([]byte(nil), ra.Bytes...), batch: started})
 					total += len(ra.Bytes)
@@ -382,6 +388,12 @@ func execC20(c *sim.Ctx, cfg c20cfg) (consumerSteps int) {
 		drained := -1
 		for steps := 0; steps < 600+12*len(asmSteps); steps++ {
 			b.Settle()
+			if real && endSeen && !completed && asm.AtGate() {
+				// the Assemble/Flush call that delivered the FIN/RST has returned:
+				// the assembler completes the stream in that same call, it does
+				// not wait for a later flush
+				c.Fail("liveness", "end-delivered-without-completion", "ReaderStream", "the assembler delivered the end of the stream through the reader and its call returned, but the stream was not completed (consumer %s)", consumerState(closedByConsumer, con.AtGate()))
+			}
 			asmCan := (asm.AtGate() && !asmAll) || asm.Yielded()
 			conCan := (con.AtGate() && !conDone) || con.Yielded()
 			if !asmCan && !conCan {
